@@ -515,6 +515,18 @@ static std::string run_case(const std::string &line)
                 if (!to_q(C, c) || !(c == e))
                     o.fail(op + ":wrong", "entrywise result differs");
             }
+            if (A.nrows() == B.nrows() && A.ncols() == B.ncols()) {
+                DenseMatrix X = A, Y = B;
+                if (op == "add") {
+                    add_dense_dense(X, B, X);
+                    add_dense_dense(A, Y, Y);
+                } else {
+                    elementwise_mul_dense_dense(X, B, X);
+                    elementwise_mul_dense_dense(A, Y, Y);
+                }
+                if (show_m(X) != show_m(C) || show_m(Y) != show_m(C))
+                    o.fail(op + ":aliased", "result stored into an operand differs from the result in a fresh matrix");
+            }
         } else if (op == "adds" || op == "muls") {
             DenseMatrix A = tk.matrix();
             RCP<const Basic> k = parse_entry(tk.next());
@@ -542,6 +554,30 @@ static std::string run_case(const std::string &line)
             if (to_q(A, a) && to_q(B, b) && a.c == b.r) {
                 if (!to_q(C, c) || !(c == q_mul(a, b)))
                     o.fail("mul:wrong", "product differs from the sum of products");
+            }
+            // the result matrix may be one of the operands (DenseMatrix::mul_matrix(B, B) is a public use)
+            if (A.nrows() == A.ncols()) {
+                DenseMatrix Y = B;
+                mul_dense_dense(A, Y, Y);
+                if (show_m(Y) != show_m(C))
+                    o.fail("mul:aliased", "mul_dense_dense(A, B, B) differs from the product in a fresh matrix");
+                DenseMatrix Z = B;
+                A.mul_matrix(Z, Z);
+                if (show_m(Z) != show_m(C))
+                    o.fail("mul:aliased", "A.mul_matrix(B, B) differs from the product in a fresh matrix");
+            }
+            if (B.nrows() == B.ncols()) {
+                DenseMatrix X = A;
+                mul_dense_dense(X, B, X);
+                if (show_m(X) != show_m(C))
+                    o.fail("mul:aliased", "mul_dense_dense(A, B, A) differs from the product in a fresh matrix");
+            }
+            if (A.nrows() == A.ncols()) {
+                DenseMatrix X = A, S(A.nrows(), A.ncols());
+                mul_dense_dense(A, A, S);
+                mul_dense_dense(X, X, X);
+                if (show_m(X) != show_m(S))
+                    o.fail("mul:aliased", "mul_dense_dense(A, A, A) differs from the square in a fresh matrix");
             }
         } else if (op == "transpose") {
             DenseMatrix A = tk.matrix();
